@@ -552,7 +552,7 @@ def bad_pw_lr(project, R, report, j, k):
        name="bad-pointwise-lr-licenses")
 def bad_pw_lr2(project, R, report, l):
     return implies(gen_core(project, R, report) and l in project.licenses and l not in project.license_map,
-                   l in report.bad_licenses and project.licenses[l] in report.bad_licenses[l])
+                   (l in report.bad_licenses and project.licenses[l] in report.bad_licenses[l]) == True)  # noqa: E712 (kept as one obligation)
 
 
 @lemma(types=_T3, serves=["C01"], name="verdict-bad")
